@@ -60,6 +60,7 @@ const (
 	KDelay
 	KCombine
 	KLoop
+	KIte // Delay(func() Seq { if C() { return A }; return B })
 )
 
 type CTerm struct {
@@ -132,6 +133,8 @@ func (t *CTerm) Sexp() *sexp.Node {
 			p = t.P.Sexp()
 		}
 		return sexp.L(sexp.A("loop"), c, p, t.A.Sexp())
+	case KIte:
+		return sexp.L(sexp.A("ite"), sexp.L(sexp.A("c"), t.C.Sc.Sexp(), sexp.I(t.C.J), sexp.I(t.C.N)), t.A.Sexp(), t.B.Sexp())
 	}
 	panic("bad kind")
 }
@@ -140,7 +143,7 @@ func (t *CTerm) Size() int {
 	switch t.K {
 	case KBind, KDelay, KLoop:
 		return 1 + t.A.Size()
-	case KCombine:
+	case KCombine, KIte:
 		return 1 + t.A.Size() + t.B.Size()
 	}
 	return 1
@@ -159,6 +162,8 @@ func alwaysNormal(t *CTerm) bool {
 		return t.Th.Pn == "" && alwaysNormal(t.A)
 	case KCombine:
 		return alwaysNormal(t.A) && alwaysNormal(t.B)
+	case KIte:
+		return t.C.Sc.Pn == "" && alwaysNormal(t.A) && alwaysNormal(t.B)
 	}
 	return false
 }
@@ -174,6 +179,8 @@ func mustYield(t *CTerm) bool {
 		return mustYield(t.A) || (alwaysNormal(t.A) && mustYield(t.B))
 	case KLoop:
 		return t.C == nil && (t.P == nil || t.P.Pn == "") && mustYield(t.A)
+	case KIte:
+		return t.C.Sc.Pn != "" || (mustYield(t.A) && mustYield(t.B))
 	}
 	return false
 }
@@ -189,6 +196,8 @@ func yieldsOrExits(t *CTerm) bool {
 		return yieldsOrExits(t.A) || (alwaysNormal(t.A) && yieldsOrExits(t.B))
 	case KLoop:
 		return mustYield(t)
+	case KIte:
+		return t.C.Sc.Pn != "" || (yieldsOrExits(t.A) && yieldsOrExits(t.B))
 	}
 	return false
 }
@@ -199,7 +208,7 @@ func Finite(t *CTerm) bool {
 	switch t.K {
 	case KBind, KDelay:
 		return Finite(t.A)
-	case KCombine:
+	case KCombine, KIte:
 		return Finite(t.A) && Finite(t.B)
 	case KLoop:
 		if !Finite(t.A) {
